@@ -195,7 +195,7 @@ def main(argv=None):
         json.dump(exp, open(os.path.join(VERIF_DIR, "contracts", "EXPECTED.json"), "w"), indent=1, sort_keys=True)
 
     return evidence.report(a.prop, a.tier, seed, results, framework.REGISTRY, load_known(), load_expected(), head, dirty, time.time() - t0,
-                           write=not a.no_evidence)
+                           write=not (a.no_evidence or a.only))
 
 
 def do_replay(path):
